@@ -133,11 +133,29 @@ Definition with_owner (m : meta) (uid gid : Z) : meta :=
      m_uid := if Z.eqb uid (-1) then m_uid m else uid;
      m_gid := if Z.eqb gid (-1) then m_gid m else gid |}.
 
+(* baseNode.dropSetId (the kernel's setattr_should_drop_suidgid): the set-user-ID bit is cleared, the set-group-ID bit
+   too when the group-execute bit is set or when the user is neither an administrator nor a member of the group *)
+Definition drop_setid (u : user) (m : meta) : meta :=
+  let a := N.ldiff (m_mode m) MODE_SETUID in
+  {| m_mode := if has (m_mode m) 8 || (negb (us_admin u) && negb (Z.eqb (m_gid m) (us_gid u)))
+               then N.ldiff a MODE_SETGID else a;
+     m_uid := m_uid m; m_gid := m_gid m |}.
+
+(* fileNode.removePrivs (file_remove_privs): a write or a truncation by a user who is not an administrator *)
+Definition drop_privs (u : user) (m : meta) : meta := if us_admin u then m else drop_setid u m.
+
 Definition set_meta (n : node) (m : meta) : node :=
   match n with
   | NDir ch _ => NDir ch m
   | NFile d k i _ => NFile d k i m
   | NSym l _ => NSym l m
+  end.
+
+(* node.setOwner: the set-id bits of a node that is not a directory are cleared *)
+Definition chown_meta (n : node) (u : user) (uid gid : Z) : meta :=
+  match n with
+  | NDir _ m => with_owner m uid gid
+  | _ => with_owner (drop_setid u (node_meta n)) uid gid
   end.
 
 (* ---- the path walk (memfs_internal.go:44 searchNode) ------------------- *)
@@ -446,7 +464,8 @@ Definition open_file (s : fsys) (v : view) (view_ix : nat) (name : str) (flag pe
           else
             let d1 := if has om OpenTruncate then [] else d in
             let at_ := 0%Z in      (* every new handle starts at offset 0, O_APPEND or not (Write moves to the end) *)
-            (with_heap s (upd h c (NFile d1 k i m)), inr (new_handle c view_ix name at_ om))
+            let m1 := if has om OpenTruncate then drop_privs (v_user v) m else m in
+            (with_heap s (upd h c (NFile d1 k i m1)), inr (new_handle c view_ix name at_ om))
       | Some (NDir _ m) =>
           if has om OpenCreateExcl then (s, inl (RFail EFileExists))
           else if has om OpenWrite || has om OpenCreate || has om OpenTruncate then (s, inl (RFail EIsADirectory))
@@ -655,7 +674,7 @@ Definition truncate (s : fsys) (v : view) (name : str) (size : Z) : fsys * res :
            | Some (NFile d k i m) =>
                if Z.ltb size 0 then (s, RFail EInvalidArgument)
                else if negb (check_permission m OpenWrite (v_user v)) then (s, RFail EPermDenied)
-               else (with_heap s (upd (f_heap s) c (NFile (truncate_data d size) k i m)), ROk)
+               else (with_heap s (upd (f_heap s) c (NFile (truncate_data d size) k i (drop_privs (v_user v) m))), ROk)
            | _ => (s, RFail EIsADirectory)
            end
        | None => (s, RFail EIsADirectory)
@@ -687,7 +706,7 @@ Definition chown_gen (slm : slmode) (s : fsys) (v : view) (name : str) (uid gid 
     | Some c =>
         if negb (is_file_exists (sr_err r)) then (s, RFail (sr_err r))
         else match get (f_heap s) c with
-             | Some n => (with_heap s (upd (f_heap s) c (set_meta n (with_owner (node_meta n) uid gid))), ROk)
+             | Some n => (with_heap s (upd (f_heap s) c (set_meta n (chown_meta n (v_user v) uid gid))), ROk)
              | None => (s, RPanic)
              end
     end.
